@@ -96,10 +96,20 @@ def run_many(vs: List[Dict[str, Any]], repo: str, jobs: int = 16) -> List[Dict[s
         return list(ex.map(lambda v: run_variant(v, repo), vs))
 
 
+def refactoring_variants(prop: str) -> List[Dict[str, Any]]:
+    """The behaviour-preserving refactorings written by independent sub-agents (selftest/refactorings/*.diff), as silent
+    variants for `prop`: every one of them must leave the property's check silent."""
+    store = os.path.join(HERE, 'refactorings')
+    if not os.path.isdir(store):
+        return []
+    return [{'id': f'refactoring-{n[:-5]}', 'property': prop, 'rule': '', 'patch': os.path.join(store, n), 'expect': 'silent', 'names': []}
+            for n in sorted(os.listdir(store)) if n.endswith('.diff')]
+
+
 def run_for_property(prop: str, repo: str) -> Dict[str, Any]:
     from sa import AnalysisError
 
-    vs = [v for v in load_variants() if v['property'] == prop and not v.get('needs_fix_absent')] + seeded_variants(prop)
+    vs = [v for v in load_variants() if v['property'] == prop and not v.get('needs_fix_absent')] + seeded_variants(prop) + refactoring_variants(prop)
     res = run_many(vs, repo)
     bad = [r for r in res if not r['ok']]
     summary = {
